@@ -103,6 +103,7 @@ class Gen:
 
     def __init__(self, rng, N, owrun, driver=None):
         self.rng, self.N, self.owrun = rng, N, owrun
+        self.signed = False       # C14 quantifies over ALL input values: it sets this and gets a few sign-changing series
         # fixed lengths in the borrowed generators
         c12.gen_n = lambda rng, quick, allow0=True: N
         c16.series_len = lambda rng: N
@@ -132,7 +133,22 @@ class Gen:
             regime = rng.choice(rrlib.REGIMES)
             rain, pet = rrlib.forcing(rng, regime, N)
             ins = [rain] if rrlib.NINPUTS[model] == 1 else [rain, pet]
-            out.append(mkcase(model, ps, st0, ins, regime=regime, warm=False))
+            warm = model in ('GR4J', 'Sacramento', 'Simhyd', 'Surm') and rng.random() < 0.3
+            if self.signed and rng.random() < 0.08:
+                # "all parameter/input/state values" (C14): a series that is zero almost everywhere with a few NEGATIVE entries
+                # (and nothing above zero), from a cold start - whatever the kernel does with it, the same code run on the
+                # same numbers must do it again, a prefix must not depend on the rest, and the kernel model must agree
+                warm = False
+                rain = [0.0] * N
+                for _ in range(rng.randint(1, 3)):
+                    rain[rng.randrange(N)] = -rng.choice([1.0, 0.5, rng.uniform(0.01, 20.0)])
+                if rng.random() < 0.5:
+                    pet = [0.0] * N
+                ins = [rain] if rrlib.NINPUTS[model] == 1 else [rain, pet]
+                regime = 'signed'
+            if warm:                                 # stores at capacity / above, at, below field capacity / part full
+                st0 = rrlib.warm_states(rng, model, ps, st0)
+            out.append(mkcase(model, ps, st0, ins, regime=regime, warm=warm))
         return out
 
     def musk(self, count):
@@ -387,6 +403,8 @@ def rr_conditioned(drv, cs, make_line, parser, impl_results, model_results, info
     alternating sign, on the forcing and on the initial states) and, per time step, the largest deviation over all of them
     counts -- a single one-sided perturbation misses half of the cases that sit on a floor()/comparison threshold.
     -> None (explained; [info], if a dict, receives the largest amplification and the number of runs) or a description"""
+    if cs['model'] in C12GEN:
+        return cancellation_conditioned(drv, cs, make_line, parser, impl_results, model_results, info=info)
     if cs['model'] not in RR:
         return 'not a rainfall-runoff model'
     rain = cs['inputs'][0]
@@ -412,6 +430,68 @@ def rr_conditioned(drv, cs, make_line, parser, impl_results, model_results, info
         info['amplification'] = amp
         info['perturbed_runs'] = len(keep)
     return None
+
+
+def cancellation_conditioned(drv, cs, make_line, parser, impl_results, model_results, info=None):
+    """The constituent kernels report RATIOS (deposition fractions, concentrations) whose denominators are differences of
+    pow/exp terms; on trajectories the kernels were not written for (C14 draws ANY state value, e.g. a negative stored mass)
+    a denominator can cancel to 1e-9 of its operands, and one ulp of libm difference between Go and the extracted kernel
+    then shows as 1e-9 relative in the ratio.  A uniform scaling of the data does not show that sensitivity (numerator and
+    denominator scale together), so it is measured with INDEPENDENT relative perturbations: every parameter, state and
+    input value multiplied by 1 +- delta with its own sign (delta 1e-14 and 1e-13, four draws each, deterministic in the
+    case), the extracted kernel run on each, and rrlib.conditioned_agree with the model's own tolerances deciding.
+    -> None (explained) or a description"""
+    import random as _random
+    r = _random.Random(repr((cs['model'], cs['params'], cs['states']))[:400])
+    pcs, weights = [], []
+    for delta in (1e-14, 1e-13):
+        for _ in range(4):
+            f = lambda v: v * (1.0 + delta * r.choice((-1.0, 1.0)))
+            pcs.append(dict(cs, params=[f(v) for v in cs['params']], states=[f(v) for v in cs['states']],
+                            inputs=[[f(v) for v in row] for row in cs['inputs']]))
+            weights.append(1e-14 / delta)
+    res = run_filtered(drv, [make_line(pc) for pc in pcs], 'MODELCRASH')
+    rpss = [parser(x) for x in res]
+    keep = [(w, rps) for w, rps in zip(weights, rpss) if rps is not None and len(rps) == len(model_results)]
+    if not keep:
+        return 'perturbed model runs failed: %s' % res[0][:80]
+    amp = 0.0
+    for k, (ri, rm) in enumerate(zip(impl_results, model_results)):
+        mag = 0.0
+        if ri[0] == 'OK':
+            mag = max([abs(x) for row in ri[1] for x in row if x == x and abs(x) != float('inf')] + [0.0])
+        inf = {}
+        d = rrlib.conditioned_agree(ri, rm, [rps[k] for _, rps in keep], 1e-9, 1e-12 * mag + 1e-300, info=inf, weights=[w for w, _ in keep])
+        if d:
+            return d
+        amp = max(amp, inf.get('amplification', 0.0))
+    if info is not None:
+        info['amplification'] = amp
+        info['perturbed_runs'] = len(keep)
+    return None
+
+
+def layout_neighbours(cs, rng):
+    """Models whose state-vector LAYOUT depends on a parameter (GR4J: n1 = ceil(x4), n2 = ceil(2 x4) are carried in the
+    state vector; Lag: the buffer has floor(lag) entries, surplus entries are carried untouched): the same parameters with
+    a state vector of ANOTHER legal layout, as a hot start from states written under another parameter value produces it.
+    Run between the repetitions of a case, they show anything that is remembered per parameter value (tables sized by the
+    layout) instead of per run.  -> list of cases (empty for the other models)"""
+    m, p, st = cs['model'], cs['params'], cs['states']
+    out = []
+    if m == 'GR4J' and len(st) >= 4:
+        n1, n2 = int(st[2]), int(st[3])
+        legal = [(1, 1), (1, 2), (2, 3), (2, 4), (3, 5), (3, 6), (4, 7), (4, 8)]     # (ceil x4, ceil 2 x4) for x4 in [0.5, 4]
+        longer = [l for l in legal if l[0] >= n1 and l[1] >= n2 and l != (n1, n2)]
+        shorter = [l for l in legal if l[0] <= n1 and l[1] <= n2 and l != (n1, n2)]
+        for pick in ([rng.choice(longer)] if longer else []) + ([rng.choice(shorter)] if shorter else []) + [(4, 8), (1, 1)]:
+            k1, k2 = pick
+            if (k1, k2) != (n1, n2) and not any(o['states'][2:4] == [float(k1), float(k2)] for o in out):
+                q = [rng.choice([0.0, rng.uniform(0.0, 20.0)]) for _ in range(k1 + k2)]
+                out.append(dict(cs, states=[st[0], st[1], float(k1), float(k2)] + q))
+    if m == 'Lag':
+        out.append(dict(cs, states=list(st) + [rng.uniform(0.1, 50.0) for _ in range(rng.randint(1, 3))]))
+    return out
 
 
 def nontrivial(res):
